@@ -568,10 +568,10 @@ def run(tier='quick', seed=0):
                         detail=cex, paths=n, backend='native-exhaustive', witness=None, name=None, cname=None))
     srcs = []
     cand = sorted((o for o in all_obs if o['status'] == 'violated' and o.get('witness') and o.get('cname')
-                   and R.match_known(o['oid'].split('@')[0], o.get('detail')) is None), key=lambda o: o['oid'])
+                   and R.match_known(o['oid'].rsplit('@', 1)[0] if o['oid'].endswith(('@warmed', '@pristine')) else o['oid'], o.get('detail')) is None), key=lambda o: o['oid'])
     # known findings are replayed too (a sample of them), new violations first
     kn = sorted((o for o in all_obs if o['status'] == 'violated' and o.get('witness') and o.get('cname')
-                 and R.match_known(o['oid'].split('@')[0], o.get('detail')) is not None), key=lambda o: o['oid'])
+                 and R.match_known(o['oid'].rsplit('@', 1)[0] if o['oid'].endswith(('@warmed', '@pristine')) else o['oid'], o.get('detail')) is not None), key=lambda o: o['oid'])
     for o in cand[:report.REPLAY_CAP] + kn[:16]:
         src = replay_source(o)
         if src:
@@ -580,7 +580,7 @@ def run(tier='quick', seed=0):
     for o in sorted(all_obs, key=lambda o: o['oid']):
         ob = report.Ob(o['oid'], o['status'], level=o.get('level', 'proved'), backend=o.get('backend', 'z3'), detail=o.get('detail'), paths=o.get('paths', 0))
         if o['status'] == 'violated':
-            k = R.match_known(o['oid'].split('@')[0], o.get('detail'))
+            k = R.match_known(o['oid'].rsplit('@', 1)[0] if o['oid'].endswith(('@warmed', '@pristine')) else o['oid'], o.get('detail'))
             if o['oid'] in replayed:
                 ob.replay, rc, out = replayed[o['oid']]
                 if rc != 1:
